@@ -15,7 +15,7 @@ static inline unsigned long spec_pool_out(unsigned long n, unsigned long k, unsi
   return out;
 }
 /* extents for which the library's float arithmetic is exact (float has a 24-bit significand); see props/C17.py */
-#define POOL_MAX 4096UL
+#define POOL_MAX 256UL
 static inline int pool_args_ok(unsigned long n, unsigned long k, unsigned long s)
 { return 1UL <= k && k <= n && n <= POOL_MAX && 1UL <= s && s <= POOL_MAX; }
 
